@@ -248,8 +248,14 @@ func parseTOCEStargz(r io.Reader) (toc *JTOC, tocDgst digest.Digest, err error) 
 	}
 	dgstr := digest.Canonical.Digester()
 	toc = new(JTOC)
-	if err := json.NewDecoder(io.TeeReader(tr, dgstr.Hash())).Decode(&toc); err != nil {
+	tocR := io.TeeReader(tr, dgstr.Hash())
+	if err := json.NewDecoder(tocR).Decode(&toc); err != nil {
 		return nil, "", fmt.Errorf("error decoding TOC JSON: %v", err)
+	}
+	// The digest is that of the whole TOC file: also hash what follows the JSON
+	// value (the decoder stops reading at an arbitrary point after it).
+	if _, err := io.Copy(io.Discard, tocR); err != nil {
+		return nil, "", fmt.Errorf("error reading TOC JSON: %w", err)
 	}
 	if err := tr.Close(); err != nil {
 		return nil, "", err
